@@ -17,6 +17,7 @@ type Encoder struct {
 	guardsOn bool     // lock-discipline obligations are generated (property C11 is being checked)
 	unshared []string // object references the contract declares thread-private
 	unshDecl bool
+	inputs   []inputTerm // description of the function's inputs in the entry state (for counterexample replay)
 	fnTags   map[*ssa.Function]int
 	topEntry *State   // entry state of the function under contract (inlined frames have their own f.entry)
 	prog     *Program
